@@ -23,6 +23,7 @@ TraceInit ==
   /\ tid \in 1..Len(Traces) /\ l = 1
   /\ natOf = T.natOf /\ kind = T.kind /\ sock = T.sock /\ extip = T.extip
   /\ priv = SetOf(T.priv) /\ walkers = SetOf(T.walkers) /\ contacts = T.contacts
+  /\ nbrs = [h \in DOMAIN T.natOf |-> SetOf(T.nbrs[h])]     \* IPv6 neighbours the host held when the recording started
   /\ InitOverlay
   /\ gt = T.gt0                  \* the Lamport clock every host had when the recording started
 
@@ -30,15 +31,18 @@ HostMatches(h, s) ==
   /\ wan'[h] = s.wan
   /\ peers'[h] = SetOf(s.peers)
   /\ known'[h] = SetOf(s.known)
+  /\ svcs'[h] = SetOf(s.svcs)
   /\ gt'[h] = s.gt
-  /\ WalkableOf(known'[h], peers'[h]) = SetOf(s.walkable)
+  \* per overlay: get_walkable_addresses() and get_peers() as the real overlay answers them
+  /\ \A v \in Svcs : WalkableOf(known'[h], peers'[h], svcs'[h], v) = SetOf(s.walkable[v])
+  /\ \A v \in Svcs : {r.k : r \in InSvc(peers'[h], svcs'[h], v)} = SetOf(s.members[v])
 
 NatsMatch(ns) ==
   /\ mapping' = [n \in Nats |-> SetOf(ns[n].mapping)]
   /\ allowed' = [n \in Nats |-> SetOf(ns[n].allowed)]
   /\ nports'  = [n \in Nats |-> ns[n].nports]
 
-MsgOf(q) == Msg(q.dst, q.kind, q.ns, q.dest, q.slan, q.swan, q.ilan, q.iwan, q.ins, q.ident)
+MsgOf(q) == Msg(q.ov, q.dst, q.kind, q.ns, q.dest, q.slan, q.swan, q.ilan, q.iwan, q.ins, q.ident)
 
 (* a call or a handler run of host e.h as observed: what it sent and its state afterwards come from the log *)
 Observed(e) ==
@@ -54,15 +58,16 @@ Observed(e) ==
         /\ wan'   = [wan EXCEPT ![h] = e.host.wan]
         /\ peers' = [peers EXCEPT ![h] = SetOf(e.host.peers)]
         /\ known' = [known EXCEPT ![h] = SetOf(e.host.known)]
+        /\ svcs'  = [svcs EXCEPT ![h] = SetOf(e.host.svcs)]
         /\ gt'    = [gt EXCEPT ![h] = e.host.gt]
-        /\ contacted' = IF e.act = "Contact" THEN [contacted EXCEPT ![h] = @ + 1] ELSE contacted
-        /\ walked' = IF e.act = "IntroWalk" THEN [walked EXCEPT ![h] = @ \cup {e.a}] ELSE walked
+        /\ contacted' = IF e.act = "Contact" THEN [contacted EXCEPT ![h][e.s] = @ + 1] ELSE contacted
+        /\ walked' = IF e.act = "IntroWalk" THEN [walked EXCEPT ![h][e.s] = @ \cup {e.a}] ELSE walked
         /\ intros' = IF h = "I"
-                     THEN intros \cup {[req |-> p.from, cand |-> c.k, reqaddr |-> q.dst, candaddr |-> c.addr,
+                     THEN intros \cup {[ov |-> p.ov, req |-> p.from, cand |-> c.k, reqaddr |-> q.dst, candaddr |-> Pref(c),
                                         ok |-> c.k \notin stale, cur |-> Pub(c.k)] :
                                          <<p, q, c>> \in {x \in consumed \X em \X SetOf(e.host.peers) :
                                                 x[2].kind = "iresp" /\ x[2].iwan # Zero
-                                                /\ (x[3].addr = x[2].iwan \/ x[3].addr = x[2].ilan)}}
+                                                /\ (Pref(x[3]) = x[2].iwan \/ Pref(x[3]) = x[2].ilan)}}
                      ELSE intros
         /\ puncAsked' = puncAsked \cup {[to |-> q.dst, wanw |-> q.swan] : q \in {x \in em : x.kind = "preq"}}
         /\ stale' = IF h = "I" THEN stale \ {p.from : p \in {x \in consumed : x.kind = "ireq"}} ELSE stale
@@ -72,8 +77,8 @@ Observed(e) ==
 TraceNext ==
   /\ l <= Len(Ev)
   /\ LET e == Ev[l] IN
-       /\ \/ Strict /\ e.act = "Contact"   /\ Contact(e.h)
-          \/ Strict /\ e.act = "IntroWalk" /\ IntroWalk(e.h, e.a)
+       /\ \/ Strict /\ e.act = "Contact"   /\ Contact(e.h, e.s)
+          \/ Strict /\ e.act = "IntroWalk" /\ IntroWalk(e.h, e.s, e.a)
           \/ /\ Strict /\ e.act = "Deliver"
              /\ \E p \in net : p.id = e.id /\ Route(p).to = e.h
              /\ \/ DeliverIReq(e.id) \/ DeliverIResp(e.id) \/ DeliverPReq(e.id) \/ DeliverPunc(e.id)
@@ -98,7 +103,7 @@ TraceAccepted == l <= Len(Ev) => ENABLED TraceNext
 (* the C13 verdict on the behaviour as observed: the driver ends a schedule only when nothing is in flight and  *)
 (* every follower has walked to everything get_walkable_addresses() offered                                    *)
 AtEnd == l > Len(Ev)
-ReachAtEnd   == AtEnd => (net = {} /\ \A i \in intros : (i.req \in Walkers /\ i.ok) => Mutual(i.req, i.cand))
+ReachAtEnd   == AtEnd => (net = {} /\ \A i \in intros : (i.req \in Walkers /\ i.ok) => MutualIn(i.req, i.cand, i.ov))
 HoldsWorkingAtEnd == AtEnd => \A i \in intros :
                   (i.req \in Walkers /\ i.ok /\ i.cur = Pub(i.cand) /\ ~SameNat(i.req, i.cand)
                    /\ IsPeer(i.req, i.cand)) => PeerOf(i.req, i.cand).addr = Pub(i.cand)
